@@ -7,6 +7,14 @@ MCTARGETS == {-4, -2, 0, 2, 4}
 NoRoots == {}
 Roots1 == {[t |-> 2, ev |-> 1, term |-> FALSE], [t |-> 3, ev |-> 2, term |-> TRUE], [t |-> 4, ev |-> 1, term |-> FALSE],
            [t |-> 4, ev |-> 3, term |-> FALSE], [t |-> -2, ev |-> 2, term |-> TRUE]}
+(* constants of the replay behaviours (OdeSystemSim): steps of 1-2 ticks, roots of one event function further apart than a step *)
+SimT0S == {-4, 0, 4}
+SimTFS == {-4, 0, 4, 8}
+SimDTS == {1, 2}
+SimTARGETS == {-4, -3, 0, 2, 5, 6}
+SimRoots == {[t |-> 1, ev |-> 1, term |-> FALSE], [t |-> 5, ev |-> 1, term |-> FALSE], [t |-> -3, ev |-> 1, term |-> FALSE],
+             [t |-> 3, ev |-> 2, term |-> TRUE], [t |-> -2, ev |-> 2, term |-> TRUE],
+             [t |-> 3, ev |-> 3, term |-> FALSE], [t |-> 7, ev |-> 3, term |-> FALSE]}
 NoCb == {}
 Cb1 == {1, 2}
 NoDev == {}
@@ -18,4 +26,6 @@ DevDedupByPosition == {"dedupByPosition"}
 DevResetKeepsEvents == {"resetKeepsEvents"}
 DevClampAdoptsDt == {"clampAdoptsDt"}
 DevRecordStepTooShort == {"recordStepTooShort"}
+DevPerCallSuppression == {"perCallSuppression"}
+DevCode == {"perCallSuppression"}      \* the deviations the real code has (observations, DESIGN.md section 8)
 =============================================================================
